@@ -1,8 +1,9 @@
-(* C19 — Core-format loaders reproduce what an independent writer encoded (Protracker M.K. layer proved; XM/S3M/IT by the
-   differential only). *)
+(* C19 — Core-format loaders reproduce what an independent writer encoded.  Proved: the whole Protracker M.K. layout; the
+   packed pattern formats of XM, S3M and IT (writer -> transcribed loader loop -> exactly the written cells, translated) and the
+   note / instrument / volume renumbering of plain cells.  Instrument and sample headers of XM / S3M / IT: by the differential only. *)
 From Coq Require Import ZArith List Lia Bool.
 Import ListNotations.
-From LX Require Import Base.ListAux Model.ModCodec Proofs.ModCodecProofs.
+From LX Require Import Base.ListAux Generated.Consts Model.ModCodec Proofs.ModCodecProofs Model.PatCodecs Proofs.PatXMProofs Proofs.PatS3MProofs Proofs.PatITProofs.
 Local Open Scope Z_scope.
 
 (* Every abstract song the format can express - any title and names, any 31 instrument headers, any order list, any
@@ -29,8 +30,108 @@ Print Assumptions cell_roundtrip.
 Example c19_nonvacuous :
   let i0 := {| i_name := repeat 65 22; i_len := 2; i_fine := 3; i_vol := 64; i_lps := 0; i_lpl := 2 |} in
   let ie := {| i_name := repeat 0 22; i_len := 0; i_fine := 0; i_vol := 0; i_lps := 0; i_lpl := 1 |} in
-  let s := {| s_title := repeat 84 20; s_ins := i0 :: repeat ie 30; s_len := 1; s_rst := 127; s_orders := repeat 0 128;
+  let s := {| s_title := repeat 84 20; ModCodec.s_ins := i0 :: repeat ie 30; s_len := 1; s_rst := 127; s_orders := repeat 0 128;
               s_pats := [ {| c_period := 428; c_ins := 17; c_fxt := 12; c_fxp := 32 |} :: repeat {| c_period := 0; c_ins := 0; c_fxt := 0; c_fxp := 0 |} 255 ];
               s_smp := [1; 255; 2; 254] :: repeat [] 30 |} in
   song_okb s = true /\ length (encode s) = (1084 + 1024 + 4)%nat /\ firstn 4 (skipn 1084 (encode s)) = [17; 172; 28; 32] /\ decode (encode s) = Some s.
 Proof. vm_compute. repeat split; reflexivity. Qed.
+
+(* ---------------------------------------------------------------- XM packed patterns ---------------------------------- *)
+
+(* every cell (five arbitrary bytes), stored raw or behind a packing byte naming any set of fields that covers its non-zero ones,
+   is read back exactly, whatever follows *)
+Theorem xm_cell_roundtrip : forall mode c r, rcell_okb c = true -> xm_mode_okb mode c = true ->
+  xm_dec_cell (xm_enc_cell mode c ++ r) = Some (c, r).
+Proof. exact xm_dec_enc_cell. Qed.
+Print Assumptions xm_cell_roundtrip.
+
+(* a whole pattern of rows x chn cells, each packed in any allowed way: load_xm_pattern's result is the translation of exactly
+   those cells, in row-major order *)
+Theorem xm_pattern_roundtrip : forall rows chn mcs, 0 <= rows -> 0 <= chn -> Z.of_nat (length mcs) = rows * chn ->
+  forallb mc_okb mcs = true -> xm_load_pattern rows chn (xm_enc_cells mcs) = Some (map xm_xlat (map snd mcs)).
+Proof. exact xm_load_written_pattern. Qed.
+Print Assumptions xm_pattern_roundtrip.
+
+(* the renumbering of plain cells: notes 1..96 become 13..108 with the instrument unchanged, an empty note stays empty, key-off
+   becomes one of the two key-off events, and the set-volume column 0x10..0x50 becomes volume 1..65 with no second effect *)
+Theorem xm_plain_cells : forall c,
+  (1 <= r_note c <= 96 -> e_note (xm_xlat c) = r_note c + 12 /\ e_ins (xm_xlat c) = r_ins c) /\
+  (r_note c = 0 -> e_note (xm_xlat c) = 0) /\
+  (r_note c = 97 -> e_note (xm_xlat c) = C_XMP_KEY_OFF \/ (r_ins c <> 0 /\ e_note (xm_xlat c) = C_XMP_KEY_FADE)) /\
+  ((r_vol c = 0 \/ 16 <= r_vol c <= 80) ->
+     e_vol (xm_xlat c) = (if r_vol c =? 0 then 0 else r_vol c - 15) /\ e_f2t (xm_xlat c) = 0 /\ e_f2p (xm_xlat c) = 0).
+Proof. intros c. split; [apply xm_plain_note|]. split; [apply xm_empty_note|]. split; [apply xm_keyoff_note | apply xm_plain_volume]. Qed.
+Print Assumptions xm_plain_cells.
+
+Example c19_xm_nonvacuous :
+  let c1 := {| r_note := 49; r_ins := 1; r_vol := 48; r_fxt := 0; r_fxp := 0 |} in
+  let c2 := {| r_note := 97; r_ins := 2; r_vol := 0; r_fxt := 14; r_fxp := 208 |} in
+  let c3 := {| r_note := 0; r_ins := 0; r_vol := 0xf3; r_fxt := 3; r_fxp := 0x20 |} in
+  let mcs := [(xm_min_mode c1, c1); (None, c2); (Some 31, rcell0); (xm_min_mode c3, c3)] in
+  forallb mc_okb mcs = true /\ xm_enc_cells mcs = [135; 49; 1; 48; 97; 2; 0; 14; 208; 159; 0; 0; 0; 0; 0; 156; 243; 3; 32] /\
+  xm_load_pattern 2 2 (xm_enc_cells mcs) =
+    Some [ {| e_note := 61; e_ins := 1; e_vol := 33; e_fxt := 0; e_fxp := 0; e_f2t := 0; e_f2p := 0 |};
+           {| e_note := 129; e_ins := 2; e_vol := 0; e_fxt := 14; e_fxp := 208; e_f2t := 0; e_f2p := 0 |}; ev0;
+           {| e_note := 0; e_ins := 0; e_vol := 0; e_fxt := 0; e_fxp := 0; e_f2t := 3; e_f2p := 96 |} ] /\
+  xm_load_pattern 2 2 [135; 49; 1] = None.
+Proof. vm_compute. repeat split; reflexivity. Qed.
+
+(* ---------------------------------------------------------------- S3M packed patterns --------------------------------- *)
+
+(* 64 rows of channel entries (any channels 0..31, any of the three field groups, the same channel any number of times in a
+   row, any bytes), followed by anything, with the packed-length counter set to what was written: the transcribed loader loop
+   yields exactly the meaning of the entries, and the stream's error flag stays clear *)
+Theorem s3m_pattern_roundtrip : forall chn rows tail,
+  1 <= chn <= 32 -> length rows = 64%nat -> Forall (Forall (fun e => s3ment_okb e = true)) rows ->
+  s3m_load_pattern chn (Z.of_nat (length (s3m_enc_rows rows))) (s3m_enc_rows rows ++ tail) = Some (map (s3m_ref_row chn) rows, false).
+Proof. exact s3m_decode_encode. Qed.
+Print Assumptions s3m_pattern_roundtrip.
+
+(* plain cells: octave o / semitone k becomes note 13 + 12 o + k, the instrument is kept, volume v becomes v + 1 *)
+Theorem s3m_plain_cells :
+  (forall o k, 0 <= o <= 9 -> 0 <= k <= 11 -> s3m_note (o * 16 + k) = 13 + 12 * o + k) /\
+  (forall chn e, 0 <= s_chn e < chn -> s_hasni e = true -> s_hasvol e = true ->
+     let x := nth (Z.to_nat (s_chn e)) (s3m_apply_ent (repeat ev0 (Z.to_nat chn)) e) ev0 in
+     e_note x = s3m_note (s_note e) /\ e_ins x = PatCodecs.s_ins e /\ e_vol x = (s_vol e + 1) mod 256).
+Proof. split; [exact s3m_note_plain | exact s3m_apply_plain]. Qed.
+Print Assumptions s3m_plain_cells.
+
+(* ---------------------------------------------------------------- IT packed patterns ---------------------------------- *)
+
+(* any number of rows of channel entries (channels 0..63, any subset of note / instrument / volume / command, the same channel
+   any number of times in a row): load_it_pattern's loop, with its per-channel mask, last-value and S-command memories, yields
+   exactly the meaning of the entries; the S-command memory (S00 recalls the last parameter) is threaded through the rows *)
+Theorem it_pattern_roundtrip : forall newfx rows,
+  Forall (Forall (fun e => itent_okb e = true)) rows ->
+  it_load_pattern newfx (Z.of_nat (length rows)) (it_enc_rows rows) = it_ref_rows newfx (repeat 0 64) rows.
+Proof. exact it_decode_encode. Qed.
+Print Assumptions it_pattern_roundtrip.
+
+(* an IT file has no channel count: the loader's scan finds the highest channel any entry names *)
+Theorem it_channel_count : forall rows, Forall (Forall (fun e => itent_okb e = true)) rows ->
+  it_max_channel (Z.of_nat (length rows)) (it_enc_rows rows) = fold_left Z.max (map t_chn (concat rows)) 0.
+Proof. exact it_channels_from_scan. Qed.
+Print Assumptions it_channel_count.
+
+Theorem it_plain_cells :
+  (forall n, 0 <= n <= 119 -> it_note n = n + 1) /\
+  (forall e, 0 <= e_vol e <= 64 -> e_vol (it_xlat_volfx e) = e_vol e + 1 /\ e_f2t (it_xlat_volfx e) = e_f2t e).
+Proof. split; [exact it_note_plain | exact it_vol_plain]. Qed.
+Print Assumptions it_plain_cells.
+
+Example c19_s3m_it_nonvacuous :
+  let e1 := {| s_chn := 0; s_hasni := true; s_note := 0x40; PatCodecs.s_ins := 1; s_hasvol := true; s_vol := 40; s_hasfx := true; s_fxt := 1; s_fxp := 6 |} in
+  let e2 := {| s_chn := 2; s_hasni := false; s_note := 0; PatCodecs.s_ins := 0; s_hasvol := false; s_vol := 0; s_hasfx := true; s_fxt := 19; s_fxp := 0x82 |} in
+  let rows := [e1; e2] :: repeat [] 63 in
+  let t1 := {| t_chn := 0; t_hasnote := true; t_note := 60; t_hasins := true; t_ins := 1; t_hasvol := true; t_vol := 64; t_hasfx := true; t_fxt := 19; t_fxp := 0x61 |} in
+  let t2 := {| t_chn := 0; t_hasnote := false; t_note := 0; t_hasins := false; t_ins := 0; t_hasvol := false; t_vol := 0; t_hasfx := true; t_fxt := 19; t_fxp := 0 |} in
+  Forall (Forall (fun e => s3ment_okb e = true)) rows /\ length rows = 64%nat /\
+  firstn 13 (s3m_enc_rows rows) = [224; 64; 1; 40; 1; 6; 130; 19; 130; 0; 0; 0; 0] /\
+  nth 0 (s3m_ref_row 4 [e1; e2]) ev0 = {| e_note := 61; e_ins := 1; e_vol := 41; e_fxt := 163; e_fxp := 6; e_f2t := 0; e_f2p := 0 |} /\
+  nth 2 (s3m_ref_row 4 [e1; e2]) ev0 = {| e_note := 0; e_ins := 0; e_vol := 0; e_fxt := 8; e_fxp := 32; e_f2t := 0; e_f2p := 0 |} /\
+  Forall (Forall (fun e => itent_okb e = true)) [[t1]; [t2]] /\
+  it_enc_rows [[t1]; [t2]] = [129; 15; 60; 1; 64; 19; 97; 0; 129; 8; 19; 0; 0] /\
+  map (fun row => nth 0 row ev0) (it_load_pattern true 2 (it_enc_rows [[t1]; [t2]])) =
+    [ {| e_note := 61; e_ins := 1; e_vol := 65; e_fxt := 14; e_fxp := 225; e_f2t := 0; e_f2p := 0 |};
+      {| e_note := 0; e_ins := 0; e_vol := 0; e_fxt := 14; e_fxp := 225; e_f2t := 0; e_f2p := 0 |} ].
+Proof. vm_compute. repeat split; repeat constructor. Qed.
